@@ -1031,6 +1031,12 @@ class Engine:
                     return inner
                 return self.conv(c.split("::")[-1], inner)
             return a if isinstance(a, Ref) else inner
+        # --- Option/Result views: as_ref / as_mut / as_deref give the same variant over references to the same payload ---
+        if re.search(r"(Option|Result)(<.*>)?::(as_ref|as_mut|as_deref|as_deref_mut)$", c) and len(args) == 1:
+            a = args[0]
+            inner = self.deref(a) if isinstance(a, Ref) else a
+            if isinstance(inner, (Agg, Sym)):
+                return inner
         # --- string equality ---
         m = re.match(r"<(.*) as PartialEq(?:<(.*)>)?>::(eq|ne)$", c)
         if m and len(args) == 2:
